@@ -160,7 +160,9 @@ def compute_unwindset(h, srcdir, target_dir):
                 notes.append("%s:%d (%s:%d `%s`)" % (loop_id.split(".")[-1], bound, os.path.basename(f), line, text.strip()[:60]))
                 break
     if not pairs:
-        return None, ["no loop matched the unwindset rules"]
+        if "Loop " in out:
+            return "", ["no loop of this harness matches an unwindset rule (harness default bound applies)"]
+        return None, ["cbmc --show-loops produced no loop list"]
     return ",".join(pairs), notes
 
 
@@ -370,7 +372,8 @@ def run_harness(h, scratch, base_target, prop, known, keep):
             res["status"] = "inconclusive"
             res["wall_s"] = time.time() - t0
             return res
-        cbmc_args += ["--unwindset", uw]
+        if uw:
+            cbmc_args += ["--unwindset", uw]
         res["unwindset"] = uwnotes
         h["_unwindset"] = uw
     extra = []
